@@ -234,6 +234,14 @@ func (c *regexpSimplifyChecker) walk(e syntax.Expr) {
 		out.WriteString(e.Value[len(`\`):])
 
 	case syntax.OpQuestion, syntax.OpNonGreedy:
+		if e.Op == syntax.OpNonGreedy && e.Args[0].Op == syntax.OpRepeat {
+			switch e.Args[0].Args[1].Value {
+			case "{0}", "{1}":
+				// Without the repeat, the `?` would become a quantifier of its own: `x{1}?` is not `x?`.
+				out.WriteString(e.Value)
+				return
+			}
+		}
 		c.walk(e.Args[0])
 		out.WriteString("?")
 	case syntax.OpStar:
